@@ -198,8 +198,18 @@ let show_outcome (((code, diag), out), ws) =
   Printf.sprintf "EXIT %d DIAG %d OUT %s WRITES %s" (int_of_z code) (if diag then 1 else 0) (text_of true out)
     (String.concat " ;; " (List.map (fun (p, c) -> dots p ^ " = " ^ text_of true c) ws))
 
+let run_http id spec body =
+  let m = ref 1 and root = ref true in
+  List.iter (fun kv -> match split_on '=' kv with
+    | ["m"; v] -> m := (match v with "GET" -> 0 | "POST" -> 1 | _ -> 2)
+    | ["root"; v] -> root := (v = "1")
+    | _ -> ()) (split_on ';' spec);
+  let (status, out) = op_http (z_of_int !m) !root body in
+  Printf.sprintf "%s\tHTTP %d %s" id (int_of_z status) (String.concat "." (List.map (fun z -> string_of_int (int_of_z z)) out))
+
 let run_line line =
   match split_on '\t' line with
+  | id :: "http" :: spec :: rest -> run_http id spec (scalars ' ' (String.concat "\t" rest))
   | id :: "cli" :: spec :: _ ->
     let (c, _, _, _, _) = cli_of spec in id ^ "\t" ^ show_outcome (op_cli c)
   | id :: "build" :: spec :: _ ->
